@@ -425,6 +425,27 @@ func runFanout(rc *RunCtx, o fanOpts) {
 		desc.History = append(desc.History, fmt.Sprintf("re-entrant nodes %v + concurrent threshold setter", reent))
 	}
 
+	// C02: two tasks set the two thresholds of a brand-new event type at the same
+	// time; once both returned, both values must read back as set
+	freshVals := [2]int{-1, -1}
+	if o.thresholds && !o.stall && tp.Choose(4, "fresh-type-setters") == 0 {
+		freshVals = [2]int{1 + tp.Choose(3, "fresh-a"), 1 + tp.Choose(3, "fresh-b")}
+		a, b := freshVals[0], freshVals[1]
+		sim.Spawn("fresh-setter-a", func() {
+			simrt.Yield("fresh:a")
+			if err := broker.SetSuccessThreshold("tfresh", a); err != nil {
+				rc.Failf("C02.threshold-api", "fresh-set", "SetSuccessThreshold(tfresh) failed: %v", err)
+			}
+		})
+		sim.Spawn("fresh-setter-b", func() {
+			simrt.Yield("fresh:b")
+			if err := broker.SetSuccessThresholdSinks("tfresh", b); err != nil {
+				rc.Failf("C02.threshold-api", "fresh-set", "SetSuccessThresholdSinks(tfresh) failed: %v", err)
+			}
+		})
+		simrt.Probe("fresh-type-concurrent-setters")
+	}
+
 	// C02: a concurrent task changes the thresholds while Sends are in flight; a
 	// Send may then be judged against any value in force during its interval
 	if o.thresholds && !o.stall && tp.Choose(3, "thr-setter") == 0 {
@@ -566,6 +587,13 @@ func runFanout(rc *RunCtx, o fanOpts) {
 		}
 	}
 
+	if freshVals[0] >= 0 && !sim.Stuck {
+		ga, _ := broker.SuccessThreshold("tfresh")
+		gb, _ := broker.SuccessThresholdSinks("tfresh")
+		if ga != freshVals[0] || gb != freshVals[1] {
+			rc.Failf("C02.threshold-api", "readback-concurrent", "thresholds of a new event type set concurrently to (%d, sinks %d) read back as (%d, %d)", freshVals[0], freshVals[1], ga, gb)
+		}
+	}
 	// ---------------- oracles over the recorded history
 	for _, bad := range h.rootBad {
 		if rc.Prop == "C01" {
